@@ -3,6 +3,7 @@
    (every verification site of a successful update cycle). *)
 From ToughV Require Export Model.Base Model.Sig Model.Deleg Model.Client.
 From ToughV Require Import Proofs.SigP.
+From ToughV Require Export Proofs.ClientP Proofs.DelegLoadP.
 
 (* the loop of Root::verify_role - and of Delegations::verify_role after the repair of F1 - accepts
    exactly when at least `threshold` DISTINCT authorised keys that are present in the key table have
@@ -42,6 +43,26 @@ Theorem C01_no_credit_duplicate : forall table keyids l1 s l2 s',
   good_signers table keyids (l1 ++ s :: l2) = good_signers table keyids (l1 ++ l2).
 Proof. exact no_credit_duplicate. Qed.
 Print Assumptions C01_no_credit_duplicate.
+
+(* every delegated role of a successfully loaded repository, at every depth: it is the file served
+   under the name its snapshot entry determines and it carries valid signatures of a threshold of
+   distinct keys that its delegating role authorises for it ([loaded] is the inductive specification
+   of the loaded delegation tree in Proofs/DelegLoadP.v; [role_fetch_ok] is its per-role content) *)
+Theorem C01_delegated_sites : forall c s rp w',
+  run_cycle fixed c s = (Ok rp, w') -> tg_has_deleg (rp_targets rp) = true ->
+  exists t0, rp_targets rp = tg_set_roles t0 (tg_roles (rp_targets rp))
+             /\ loaded (cy_cfg c) (cy_srv c) (rp_snap rp) (r_cs (rp_root rp))
+                       (tg_dkeys t0) (tg_roles t0) (tg_roles (rp_targets rp)).
+Proof. exact cycle_ok_tree. Qed.
+Print Assumptions C01_delegated_sites.
+
+Theorem C01_delegated_site_spec : forall cfg srv snap cs dkeys all name t0,
+  role_fetch_ok cfg srv snap cs dkeys all name t0 ->
+  exists h, find_hdr name all = Some h /\ spec_accept dkeys (dh_keyids h) (dh_threshold h) (tg_sigs t0) = true.
+Proof.
+  intros cfg srv snap cs dkeys all name t0 (m & file & _ & _ & _ & V & _). apply deleg_verify_spec, V.
+Qed.
+Print Assumptions C01_delegated_site_spec.
 
 (* the counter Delegations::verify_role used before the repair of F1 credited repeated signatures *)
 Theorem C01_deleg_counter_refuted : exists table keyids threshold sigs,
